@@ -545,7 +545,13 @@ func (c *rchk) msg(path string, mi *msgInfo, v *V, depth int) {
 	case "any":
 		url, val := string(v.L[0].B), v.L[1].B
 		if url == "" && len(c.ro.any) == 0 {
-			c.fail("any-empty-in-container", path+": Any without type URL (AnyTypeURLs is empty: a singular Any field is left nil, this one is an element/value/root)")
+			if depth == 0 {
+				// the root message is an Any and there is no type to choose from: the empty Any. The
+				// property speaks of Any FIELDS; nothing to resolve here.
+				c.ok()
+				return
+			}
+			c.fail("any-empty-in-container", path+": Any field without type URL (AnyTypeURLs is empty: a singular Any field is left nil, this one is a list element or map value)")
 			return
 		}
 		mt, err := c.rs.resolver.FindMessageByURL(url)
@@ -563,6 +569,15 @@ func (c *rchk) msg(path string, mi *msgInfo, v *V, depth int) {
 		}
 		if !allowed {
 			c.fail("any-url", fmt.Sprintf("%s: type URL %q is neither in AnyTypeURLs nor an interface hint", path, url))
+			return
+		}
+		if depth+1 > rapidDepthLimit {
+			// the payload would lie beyond the nesting limit: nothing is generated for it
+			if len(val) != 0 {
+				c.fail("depth", fmt.Sprintf("%s: the payload of an Any at depth %d is populated: %s", path, depth, hx(val)))
+			} else {
+				c.ok()
+			}
 			return
 		}
 		pm := mt.New()
@@ -601,7 +616,11 @@ func (c *rchk) msg(path string, mi *msgInfo, v *V, depth int) {
 			within := !isMsg || childOK
 			if c.ro.nel && within && depth <= rapidDepthLimit {
 				if c.exact && sv.K == 'l' && n == 0 {
-					c.fail("no-empty-lists", p+": empty non-nil list although NoEmptyLists is set")
+					key := "no-empty-lists"
+					if isAny2(fd) && len(c.ro.any) == 0 {
+						key = "no-empty-lists/any-without-types" // every element fails: the allocated list stays behind, empty
+					}
+					c.fail(key, p+": empty non-nil list although NoEmptyLists is set")
 				} else if n == 0 && (!isMsg || (c.ro.dn && (!isAny2(fd) || len(c.ro.any) > 0))) {
 					c.fail("no-empty-lists", p+": the list is always generated here and NoEmptyLists is set, yet it is empty")
 				} else {
@@ -805,9 +824,9 @@ func engineRapid(cfg config, o *out) {
 	for _, rs := range all {
 		si := rs.si
 		o.raw("SCHEMA\t" + si.id + "\t=\t" + si.sexp())
-		o.kase("RSCHEMA", []string{si.id, rs.rsexp()}, "ok")
-		// Any payload types: the cheapest few message types of the schema (never Any itself: genAny is
-		// handed a nil field for payloads, see key any-nil-field-panic), incl. a well-known one if present
+		o.kase("@RSCHEMA", []string{si.id, rs.rsexp()}, "ok") // context line: every driver shard reads it
+		// Any payload types: the cheapest few message types of the schema, Any itself, and one type that
+		// holds Any fields
 		type cand struct {
 			idx  int
 			cost float64
@@ -823,6 +842,12 @@ func engineRapid(cfg config, o *out) {
 		var anyTypes []int
 		for i := 0; i < len(cs) && len(anyTypes) < 3; i++ {
 			anyTypes = append(anyTypes, cs[i].idx)
+		}
+		// Any inside Any (genAny is handed a nil field for the payload), when the schema has Any
+		for _, mi := range si.msgs {
+			if wktTag(mi.md) == "any" && len(anyTypes) > 0 {
+				anyTypes = append(anyTypes, mi.idx)
+			}
 		}
 		// one more: a type that itself holds Any fields (payload inside payload), if cheap enough
 		for _, mi := range si.msgs {
